@@ -1,41 +1,54 @@
 #!/usr/bin/env python3
-"""Self-test: apply a property-breaking edit to /repo's working tree, run the property's check, revert.
-usage: mutate.py list | run <name>... | all [--tests]
-Mutants live in /verif/mutants/mutants.json: {name, property, file, old, new, note}.
-The edit is textual (old must occur exactly once) and is ALWAYS reverted with git checkout."""
-import json, subprocess, sys, os
+"""Self-test: apply a property-breaking textual edit in a scratch worktree of /repo's HEAD, run the property's
+check against it (VERIF_REPO), remove the worktree. /repo itself is not touched, several mutants run side by side.
+usage: mutate.py list | [-j N] run <name|property>... | [-j N] all [--tests]
+Mutants live in /verif/mutants/mutants.json: {name, property, file, old, new, note}; old must occur exactly once.
+Results are written to /verif/mutants/last_results.json."""
+import json, subprocess, sys, os, concurrent.futures
 V = os.path.dirname(os.path.dirname(os.path.abspath(__file__)))
 M = json.load(open(os.path.join(V, "mutants", "mutants.json")))
 def sh(cmd, **kw): return subprocess.run(cmd, shell=True, capture_output=True, text=True, **kw)
 def run(m, tests=False, tier="quick"):
-    assert sh("git -C /repo status --porcelain").stdout.strip() == "", "/repo is dirty"
-    path = os.path.join("/repo", m["file"])
-    s = open(path).read()
-    assert s.count(m["old"]) == 1, f"{m['name']}: old text occurs {s.count(m['old'])} times"
-    open(path, "w").write(s.replace(m["old"], m["new"]))
+    wt = f"/tmp/mut-{m['name']}"
+    sh(f"git -C /repo worktree remove --force {wt}")
+    assert sh(f"git -C /repo worktree add --detach {wt} HEAD").returncode == 0
+    res = {"name": m["name"], "property": m["property"], "note": m.get("note", "")}
     try:
-        res = {"name": m["name"], "property": m["property"]}
-        b = sh("cd /repo && GOFLAGS=-mod=mod GOPROXY=off go build ./...")
+        path = os.path.join(wt, m["file"])
+        s = open(path).read()
+        if s.count(m["old"]) != 1:
+            res["result"] = f"stale-mutant (old text occurs {s.count(m['old'])} times)"; return res
+        open(path, "w").write(s.replace(m["old"], m["new"]))
+        b = sh(f"cd {wt} && GOFLAGS=-mod=mod GOPROXY=off go build ./...")
         if b.returncode != 0:
             res["result"] = "does-not-compile"; res["out"] = b.stderr[-400:]; return res
         if tests:
-            pkg = "./" + os.path.dirname(m["file"]) + "/..."
-            t = sh(f"cd /repo && GOFLAGS=-mod=mod GOPROXY=off go test -vet=off -count=1 ./...")
+            t = sh(f"cd {wt} && GOFLAGS=-mod=mod GOPROXY=off go test -vet=off -count=1 ./...")
             res["repo_tests_pass"] = t.returncode == 0
-        c = sh(f"cd {V} && VERIF_BUDGET_S=600 ./check {m['property']} {tier}")
+        c = sh(f"cd {V} && VERIF_REPO={wt} VERIF_BUDGET_S=600 ./check {m['property']} {tier}")
         viol = [l for l in c.stdout.splitlines() if l.startswith("VIOLATION")]
         res["exit"] = c.returncode; res["violations"] = len(viol)
         res["first"] = next((l for l in c.stdout.splitlines() if l.startswith("  kind=")), "")[:300]
         res["result"] = "caught" if c.returncode == 1 and viol else "MISSED"
         return res
     finally:
-        sh("git -C /repo checkout -- .")
-if sys.argv[1] == "list":
+        sh(f"git -C /repo worktree remove --force {wt}")
+        tag = sh(f'echo "{wt}" | md5sum | cut -c1-8').stdout.strip()
+        sh(f"rm -rf {V}/alt/run-{tag} ~/.cache/verif-overlay-{tag} ~/.cache/verif-vmap-{tag}")
+args = sys.argv[1:]
+jobs = 4
+if args[:1] == ["-j"]:
+    jobs, args = int(args[1]), args[2:]
+if args[0] == "list":
     for m in M: print(m["name"], m["property"], m["file"], "-", m.get("note", ""))
 else:
-    tests = "--tests" in sys.argv
-    names = [a for a in sys.argv[2:] if not a.startswith("--")]
-    sel = [m for m in M if sys.argv[1] == "all" or m["name"] in names or m["property"] in names]
-    for m in sel:
-        print(json.dumps(run(m, tests)), flush=True)
-    sh(f"cd {V} && true")
+    tests = "--tests" in args
+    names = [a for a in args[1:] if not a.startswith("--")]
+    sel = [m for m in M if args[0] == "all" or m["name"] in names or m["property"] in names]
+    out = []
+    with concurrent.futures.ThreadPoolExecutor(jobs) as ex:
+        for r in ex.map(lambda m: run(m, tests), sel):
+            print(json.dumps(r), flush=True)
+            out.append(r)
+    if args[0] == "all":
+        json.dump(out, open(os.path.join(V, "mutants", "last_results.json"), "w"), indent=1)
